@@ -24,11 +24,11 @@ CHECKS = {
     "C02": ("proptest generated requests (headers, redirect depth, APIs) + generated buffer-size schedules; strict-parse round trip against an effective-request model; metamorphic one-shot vs scheduled emission; thorough: coverage-guided (libFuzzer) search over the same choice tapes, same decoder and oracle",
             "each generated request is emitted one-shot and again under a schedule aimed at line boundaries; the head is parsed by a strict parser and compared field by field with the model, and the body actually sent is checked against the announced framing",
             "trusted: strict request-head parser, effective-request model (redirect suppression, automatic Host / framing)"),
-    "C13": ("exhaustive enumeration of all redirect chains of length <= 2 over the origin/form/policy pool (889k chains, caller-added credentials on every third hop) + proptest chains of 3..4 hops; credential-policy oracle from the generator's structure; thorough: coverage-guided (libFuzzer) search over the same choice tapes, same decoder and oracle",
+    "C13": ("exhaustive enumeration of all redirect chains of length <= 2 over the origin/form/policy pool (889k chains, caller-added credentials on every third hop, a body sent despite the method on every fifth followed flow, Transfer-Encoding next to Content-Length on one original in seven) + proptest chains of 3..4 hops; credential-policy oracle from the generator's structure; thorough: coverage-guided (libFuzzer) search over the same choice tapes, same decoder and oracle",
             "complete for chains up to 2 hops over 24 origins x 4 Location forms x 2 policies; random for longer chains",
             "trusted: structural target model (form semantics), strict request-head parser"),
     "C14": ("proptest redirect chains with grammar-generated Locations; differential against an RFC 3986 section 5 reference resolver; RFC 5.4 tables and error-class tables enumerated; thorough: coverage-guided (libFuzzer) search over the same choice tapes, same decoder and oracle",
-            "the reference resolver is written from the RFC pseudo code and validated on the RFC's own examples; chains make hop k+1 resolve against hop k; 15 % of the original requests carry an explicit Host, which must not travel to another host",
+            "the reference resolver is written from the RFC pseudo code and validated on the RFC's own examples; chains make hop k+1 resolve against hop k and start from seven shapes of original request (methods, Expect, bodies); an answer other than a new flow is asked for twice; 15 % of the original requests carry an explicit Host, which must not travel to another host",
             "trusted: model/rfc3986.rs; domain restricted to where RFC 3986 and WHATWG URL agree (DESIGN section 7)"),
     "C16": ("proptest redirected flows (depth 0..3) with caller-added headers aimed at the suppressed names; strict-parse round trip; thorough: coverage-guided (libFuzzer) search over the same choice tapes, same decoder and oracle",
             "same machinery as C02 with the generator aimed at the combination redirect -> add -> serialise",
@@ -48,7 +48,7 @@ CHECKS = {
     "C07": ("bounded-exhaustive enumeration (all cut sets of short codings; all single/double structural cuts of the small-scope grammar) + proptest random codings/schedules; enumerated chunk sizes beyond 32/63 bits; round-trip against the encoder's ground truth; thorough: coverage-guided (libFuzzer) search over the same choice tapes, same decoder and oracle",
             "small-scope hypothesis: every arrival composition of every coding up to 16 (19) bytes and every pair of structural cuts of the stated grammar, under 27 buffer/boundary-stop modes; random beyond; the body state reached on five routes (plain, late 100, 100 seen, refused Expect, HTTP/1.0 request)",
             "trusted: harness chunk encoder (ground truth: payload, chunk map, boundaries)"),
-    "C08": ("proptest read histories against a reference counter + exhaustive small-scope schedules; five routes to the head, redirect bodies, close conditions; thorough: coverage-guided (libFuzzer) search over the same choice tapes, same decoder and oracle",
+    "C08": ("proptest read histories against a reference counter + exhaustive small-scope schedules; eight routes to the head (late / seen 100, head cut in the middle or 1..3 bytes before its end), empty-valued fields, redirect bodies, close conditions; thorough: coverage-guided (libFuzzer) search over the same choice tapes, same decoder and oracle",
             "(arrival, buffer) histories with windows reaching into a following response; every read is decided by min(window, space, remaining)",
             "trusted: counter model; bodies > 80000 bytes only partially materialised"),
     "C15": ("exhaustive enumeration of the redirect method table (21600 cells over three request paths) and of its variants (11520 cells: request version, own Content-Length, same-URI Locations, second hop)",
